@@ -42,7 +42,42 @@ impl HeadSet {
         broadcast use la_lt_total, la_lt_trans;
         if let Err(idx) = binary_search(&self.heads, &head) {
             self.heads.insert(idx, head);
-            assert(final(self).heads@ == old(self).heads@.insert(idx as int, head));
+            proof {
+                let o = old(self).heads@;
+                let f = final(self).heads@;
+                assert(f == o.insert(idx as int, head));
+                assert(f[idx as int] == head);
+                // head was not present before: everything left is < head, everything right is > head
+                assert(!o.contains(head)) by {
+                    if o.contains(head) {
+                        let k = choose|k: int| 0 <= k < o.len() && o[k] == head;
+                        if k < idx { assert(la_lt(o[k], head)); } else { assert(la_lt(head, o[k])); }
+                    }
+                }
+                assert forall|y: LocatedAddress| y != head implies f.contains(y) == o.contains(y) by {
+                    if o.contains(y) {
+                        let k = choose|k: int| 0 <= k < o.len() && o[k] == y;
+                        if k < idx { assert(f[k] == y); } else { assert(f[k + 1] == y); }
+                    }
+                    if f.contains(y) {
+                        let k = choose|k: int| 0 <= k < f.len() && f[k] == y;
+                        if k < idx { assert(o[k] == y); } else { assert(k != idx as int); assert(o[k - 1] == y); }
+                    }
+                }
+                // sortedness of the inserted sequence
+                assert forall|i: int, j: int| 0 <= i < j < f.len() implies la_lt(f[i], f[j]) by {
+                    if j < idx { } else if i > idx { assert(la_lt(o[i-1], o[j-1])); }
+                    else if i == idx { assert(la_lt(head, o[j-1])); }
+                    else if j == idx { assert(la_lt(o[i], head)); }
+                    else { assert(la_lt(o[i], o[j-1])); }
+                }
+            }
+        } else {
+            proof {
+                let o = old(self).heads@;
+                // Ok(i): already present
+                assert(o.contains(head));
+            }
         }
     }
 }
